@@ -278,6 +278,16 @@ class KernelEval(Evaluator):
         return super().assign(t, v)
 
     def exec_stmt(self, st):
+        if isinstance(st, ast.FunctionDef):
+            # a helper defined inside the kernel (numba compiles closures that only read the enclosing variables): interpreted with the same
+            # log, seeing the enclosing variables as they are when it is called
+            outer = self
+
+            def closure(*args, **kwargs):
+                sub = KernelEval(outer.tree, outer.fi, dict(outer.env), outer.log, outer.ctx, outer.nthreads)
+                return sub.run_function(st, list(args), kwargs)
+            self.env[st.name] = closure
+            return
         if isinstance(st, ast.AugAssign) and isinstance(st.target, ast.Subscript):
             base = self.ev(st.target.value)
             idx = self.ev_index(st.target.slice)
